@@ -342,6 +342,32 @@ def install(ctx):
         a, b = args
         return S(z3.If(b.t < a.t, a.t, b.t), a.ty)
 
+    # ---------------------------------------------------------- integer helpers
+    def _int_method(name):
+        def h(ip, pc, args, dt):
+            a = args[0]
+            if not (isinstance(a, S) and a.ty in INT_TYPES):
+                return NotImplemented
+            lo, hi = int_range(a.ty)
+            b = args[1].t if len(args) > 1 else None
+            raw = {'add': lambda: a.t + b, 'sub': lambda: a.t - b, 'mul': lambda: a.t * b}[name.split('_')[1]]()
+            kind = name.split('_')[0]
+            if kind == 'saturating':
+                return S(z3.If(raw > hi, hi, z3.If(raw < lo, lo, raw)), a.ty)
+            if kind == 'wrapping':
+                return S(wrap_int(raw, a.ty), a.ty)
+            if kind == 'checked':
+                return opt_sym(z3.And(raw >= lo, raw <= hi), S(raw, a.ty))
+            if kind == 'overflowing':
+                return Agg(None, [S(wrap_int(raw, a.ty), a.ty), bool_s(z3.Or(raw > hi, raw < lo))])
+            return NotImplemented
+        return h
+    for kind in ('saturating', 'wrapping', 'checked', 'overflowing'):
+        for opn in ('add', 'sub', 'mul'):
+            M.register('::%s_%s' % (kind, opn), _int_method('%s_%s' % (kind, opn)))
+            for ty in ('usize', 'u64', 'u32', 'u16', 'u8', 'i32', 'i64'):
+                M.register('%s::%s_%s' % (ty, kind, opn), _int_method('%s_%s' % (kind, opn)))
+
     # ---------------------------------------------------------- conversions
     @M.reg('<TryFrom>::try_from', '<TryInto>::try_into')
     def try_from(ip, pc, args, dt):
